@@ -26,3 +26,23 @@ func (f *Follower) UnitWrites() []ref.Access {
 
 // UnitPartial reports whether the current/last unit could only be partially predicted.
 func (f *Follower) UnitPartial() bool { return f.partial || f.skipCompare }
+
+// UnitNearOAM reports whether the unit in flight (or just ended) could have anything to do with
+// FE00-FEFF: a register pair, the stack pointer or the program counter at (or one step beside)
+// that area before the unit or now, or a predicted access there. Everything the OAM bug needs
+// from the CPU implies this; the reverse does not hold (it is a necessary condition only).
+func (f *Follower) UnitNearOAM() bool {
+	near := func(a uint16) bool { return a >= 0xfdfe && a <= 0xff01 }
+	now := Regs(f.M)
+	for _, r := range []ref.Regs{f.regs0, now} {
+		if near(r.BC()) || near(r.DE()) || near(r.HL()) || near(r.SP) || near(r.PC) || near(r.SP-2) || near(r.SP+2) {
+			return true
+		}
+	}
+	for _, a := range f.pred.Acc {
+		if near(a.Addr) {
+			return true
+		}
+	}
+	return false
+}
